@@ -653,7 +653,7 @@ RULES = {
                  "bytes . iter ( ) . skip ( 1 ) . all ( Zero :: is_zero )", "__all_zero_but_first ( & bytes )"),
     "R30c": Rule("R30c", "bytes.last().cloned().unwrap_or(0) -> __last_or_zero(&bytes)", "bytes . last ( ) . cloned ( ) . unwrap_or ( 0 )", "__last_or_zero ( & bytes )"),
     "R30d": Rule("R30d", "bytes.first().cloned().unwrap_or(0) -> __first_or_zero(&bytes)", "bytes . first ( ) . cloned ( ) . unwrap_or ( 0 )", "__first_or_zero ( & bytes )"),
-    "R30e": Rule("R30e", "Vec::from(digits) (digits: &[u8]) -> digits.to_vec()  (std: `impl From<&[T]> for Vec<T>` is `s.to_vec()`)", "Vec :: from ( digits )", "digits . to_vec ( )"),
+    "R30e": Rule("R30e", "Vec::from(digits) (digits: &[u8]) -> digits.to_vec()  (std: `impl From<&[T]> for Vec<T>` is `s.to_vec()`)", "Vec :: from ( $v )", "$v . to_vec ( )"),
     "R36a": Rule("R36a", "if let Some(&0) = S.last() { -> if __slice_last_is_zero(S) {  (pattern semantics: S non-empty and its last element equals 0)",
                  "if let Some ( & 0 ) = $v . last ( ) {", "if __slice_last_is_zero ( $v ) {"),
     "R36b": Rule("R36b", "if let Some(&0) = S.first() { -> if __slice_first_is_zero(S) {  (pattern semantics: S non-empty and its first element equals 0)",
